@@ -6,14 +6,17 @@ import TaskModel.Vars.EnvPipe
 import TaskModel.Vars.World
 import Driver.Util
 /-!
-`vars.resolve <rootDir> <dirAfter> <ntpl> part* <nbase> (name val)* { <ndefs> (name kind <nparts> part*)* }×6 <nq> name*`
-   sites in documented order; kind = `l` (literal template) | `s` (sh) | `S` (sh, followed by its directory override) | `r` (ref, one part `r<name>`);
-   part = `t<hex>` | `r<name>`.  Answer: the queried values, hex, space separated.
+Line protocol of the `vars` / `varscli` domains (see each `do…` for the exact token layout):
+`vars.compile`  one call compiled from the files AS WRITTEN (`Vars.compile`: special variables, merged globals, include-statement vars, MATCH, POST layer)
+`vars.cli`      a run started from the command line: `taskfileVars declared (cliLayer …)`
+`vars.envpipe`  the environment pipeline (`Vars.EnvPipe`): `{{.N}}` / `$N` per name
+`vars.fshist`   a sequence of calls whose commands rewrite files later `sh:` variables read (`Vars.World`)
+`vars.env`, `vars.envchain`, `vars.dotenvchain`, `vars.loop`, `vars.product`   (older ops)
+`vars.run`, `vars.climon`, `vars.postmon`, `vars.fsmon`   echo lines: the expectation is part of the case (run-phase consistency; monitors of open findings)
+   definition block = `<n> (name kind <nparts> part*)*`; kind = `l` (literal template) | `s` (sh) | `S` (sh + directory override) | `r` (ref, one part `r<name>`);
+   part = `t<hex>` | `r<name>`.
    Shell oracle: a command starting with `$` prints the variable whose decimal id follows
-   (read from the environment handed to it); any other command prints `<cmd>@<dir>`.
-`vars.env <nos> (name val)* <nglobal> (name val)* <ndotenv> (name val)* <ntask> (name val)* <prec> <nq> name*` → looked-up values (`-` none)
-`vars.loop …` (see `doLoop`)
-`vars.product <nrows> { name <nitems> item* }*` → `<n> { k=v,… }*`
+   (read from the environment handed to it); any other command prints `<cmd>@<last component of dir>`.
 -/
 namespace Driver.Vars
 open TaskModel.Vars Driver
